@@ -13,8 +13,8 @@ type rngT struct{ *rand.Rand }
 
 func newRng(seed int64) *rngT { return &rngT{rand.New(rand.NewSource(seed))} }
 
-func (r *rngT) byte() byte    { return byte(r.Intn(256)) }
-func (r *rngT) bool() bool    { return r.Intn(2) == 0 }
+func (r *rngT) byte() byte     { return byte(r.Intn(256)) }
+func (r *rngT) bool() bool     { return r.Intn(2) == 0 }
 func (r *rngT) pick(n int) int { return r.Intn(n) }
 
 func (r *rngT) bytes(n int) []byte {
